@@ -478,7 +478,7 @@ def chirality_decider(ctx):
                         s_ = sites.get(id(c))
                         if s_ is not None:
                             for h in s_.callees:
-                                if h.module is encf.module and h.cls is None and h not in found:
+                                if h.cls is None and h not in found:      # wherever in the package it lives
                                     found.append(h)
         if len(found) != 1:
             raise AnalysisError("the function deciding the chirality inversion was not identified (%d candidate(s))" % len(found))
